@@ -7,6 +7,7 @@ import tempfile
 from datetime import datetime
 
 import labtech
+import labtech.cache
 from labtech.storage import LocalStorage
 
 from . import dtypes as A
@@ -27,6 +28,31 @@ CASES = {
     'pickle-unpicklable-deep': (A.Saver, 'unpicklable-deep', 200),
     'json-unserialisable': (A.JSaver, 'unpicklable1', 0),
 }
+
+
+class AltPickleCache(labtech.cache.PickleCache):
+    """Another cache class with PickleCache's key prefix and file names (what a user gets who
+    subclasses PickleCache to fix a pickle protocol, say): its entries share keys with PickleCache's."""
+
+
+ALT = AltPickleCache()
+
+
+class cache_class:
+    """Configure the task type of a case with another cache object for the duration
+    (the decorator argument of the type was edited / another branch was checked out)."""
+
+    def __init__(self, case: str, cache):
+        self.cls, self.cache = CASES[case][0], cache
+
+    def __enter__(self):
+        import dataclasses
+        self.orig = self.cls._lt
+        if self.cache is not None:
+            self.cls._lt = dataclasses.replace(self.orig, cache=self.cache)
+
+    def __exit__(self, *exc):
+        self.cls._lt = self.orig
 
 
 def mk_task(case: str):
@@ -71,9 +97,15 @@ def good_run(storage_dir: str, case: str, epoch: int, bust=False):
     return res.get(t)
 
 
-def recovery(storage_dir: str, case: str, ok_values: list):
+def recovery(storage_dir: str, case: str, ok_values: list, observer_cache=None):
     """The recovery oracle: on a fresh Lab over whatever was left behind.
-    Returns a list of (clause, message, reported_cached)."""
+    Returns a list of (clause, message, reported_cached).  observer_cache: the observing
+    session has the task type configured with that cache object."""
+    with cache_class(case, observer_cache):
+        return _recovery(storage_dir, case, ok_values)
+
+
+def _recovery(storage_dir: str, case: str, ok_values: list):
     out = []
     WORLD.reset(epoch=50)
     lab = labtech.Lab(storage=LocalStorage(storage_dir, with_gitignore=False), runner_backend='serial', notebook=False)
